@@ -42,8 +42,11 @@ package fox
 //@ pred unservedReq(fox *Router, r *http.Request) = !isDirect(fox, r) && !isIgnore(fox, r) && !isRedirect(fox, r)
 //@ pred autoOpt(fox *Router, r *http.Request) = r.Method == "OPTIONS" && fox.handleOptions
 
-//@ func (*Router).ServeHTTP props C08,C11,C12,C17 partial
+//@ func (*Router).ServeHTTP props C08,C11,C12,C17
 //@   requires fox != nil && r != nil && r.URL != nil && published[&fox.tree] != nil
+//@   -- a router built by New has its four special handlers, and every route built by NewRoute has its chain
+//@   requires safety-wired: w != nil && fox.noRoute != nil && fox.noMethod != nil && fox.autoOptions != nil && fox.tsrRedirect != nil && (forall rt *Route :: {rt.hall} rt != nil ==> rt.hall != nil)
+//@   assume-at after (*Pool).Get#1 : pool-type: dyntypeIs(call_result, *cTx)
 //@   requires fresh-writer: wFinal[w] == 0 && wBody[w] == 0
 //@   modifies heap, hCalls, wFinal, wFirst, wInfo, wBody, wFlush, wHijack, hFn, hRoute, hTsr, hScope, hNParams, hReq, sbLen, unlockedLoads, released
 //@   assume-at call (*cTx).reset#1 : pool-discipline: c != nil && c.params != nil && c.tsrParams != nil && c.skipNds != nil
